@@ -144,6 +144,7 @@ func TestC15Codecs(t *testing.T) {
 				}
 			}
 			ev.NonTrivial("c15|report|" + string(r.Encode()))
+			ev.Sample("c15:report", map[string]interface{}{"id": r.ShortID, "slot": r.Timeslot, "power": r.Power, "bytes_hex": fmt.Sprintf("%x", r.Encode())})
 		case "auth":
 			a := drawRefAuth(t)
 			g := world.ToGlowAuth(a)
@@ -176,6 +177,7 @@ func TestC15Codecs(t *testing.T) {
 				t.Fatalf("C15: JSON transport changed the authorization (lat %v lon %v)", a.Latitude, a.Longitude)
 			}
 			ev.NonTrivial("c15|auth|" + string(a.Encode()))
+			ev.Sample("c15:authorization", map[string]interface{}{"lat": a.Latitude, "lon": a.Longitude, "capacity": a.Capacity, "json": string(j)})
 		case "week":
 			nrec := rapid.IntRange(0, 3).Draw(t, "records")
 			var stream []byte
@@ -228,6 +230,7 @@ func TestC15Codecs(t *testing.T) {
 			}
 			if nrec >= 2 {
 				ev.NonTrivial(fmt.Sprintf("c15|week|%d|%x", nrec, ref.Keccak(stream)))
+				ev.Sample("c15:weekly-stream", map[string]interface{}{"records": nrec, "stream_bytes": len(stream), "devices_in_first": len(weeks[0].Devices)})
 			}
 		case "server":
 			a := drawRefServer(t, 255)
@@ -239,6 +242,7 @@ func TestC15Codecs(t *testing.T) {
 				t.Fatalf("C15: authorized-server signing bytes differ")
 			}
 			ev.NonTrivial("c15|server|" + string(a.Encode()))
+			ev.Sample("c15:authorized-server", map[string]interface{}{"location_len": len(a.Location), "banned": a.Banned, "ports": []uint16{a.HttpPort, a.TcpPort, a.UdpPort}})
 		case "migration":
 			m := ref.Migration{Equipment: draw32(t, "eq"), NewGCA: draw32(t, "ngca"), NewShortID: drawU32(t, "nid"), Sig: draw64(t, "msig")}
 			for i, n := 0, rapid.IntRange(0, 3).Draw(t, "servers"); i < n; i++ {
@@ -317,6 +321,7 @@ func TestC15Codecs(t *testing.T) {
 			}
 			if n >= 2 {
 				ev.NonTrivial(fmt.Sprintf("c15|servermap|%x", ref.Keccak(refBytes)))
+				ev.Sample("c15:client-server-map", map[string]interface{}{"entries": n, "bytes": len(refBytes)})
 			}
 		case "crosstype":
 			// distinct values / distinct types never share signing bytes
@@ -412,6 +417,7 @@ func TestC15Crypto(t *testing.T) {
 		}
 		ev.NonTrivial(fmt.Sprintf("c15|crypto|%x|%x|%s", k.Pub[:8], ref.Keccak(m)[:8], what))
 		ev.Label("c15:flip-" + what)
+		ev.Sample("c15:bit-flip-"+what, map[string]interface{}{"key": fmt.Sprintf("%x", k.Pub[:8]), "message_len": len(msg), "flipped": what})
 	})
 }
 
